@@ -10,6 +10,7 @@ struct Handle {
 };
 
 struct Run {
+  bool lap_residue = false;   // a lapped call whose lap region could not be consumed before the stream ended: spliced samples stay in the decoder's overlap area
   Tape &t; Report &r; Chain c; GT g; std::vector<LinkMeta> meta; std::string desc, hist; Handle A, B, C; int hs = 0; bool nontriv = false;
   std::vector<double> tstart; double duration = 0; std::vector<char> link_finite; bool all_finite = true;   // reference decode of the link is finite and of sane magnitude throughout (lap data can carry non-finite values from one lapped call to the next)
   Run(Tape &t_, Report &r_) : t(t_), r(r_) {}
@@ -22,7 +23,7 @@ struct Run {
     if (off < 0 || off + k >= (int64_t)ref[ch].size()) return false; out = ref[ch][off + k]; return true;
   }
   static double win(int n, int i) { double s = sin((i + 0.5) / n * M_PI / 2); return sin(M_PI / 2 * s * s); }
-  bool reopen() { if (A.start(c) || B.start(c)) return r.fail("ov_open_callbacks failed on an intact file [%s]", desc.c_str()); if (hs) { if (ov_halfrate(&A.vf, 1) || ov_halfrate(&B.vf, 1)) return r.fail("ov_halfrate(1) refused [%s]", desc.c_str()); } return true; }
+  bool reopen() { lap_residue = false; if (A.start(c) || B.start(c)) return r.fail("ov_open_callbacks failed on an intact file [%s]", desc.c_str()); if (hs) { if (ov_halfrate(&A.vf, 1) || ov_halfrate(&B.vf, 1)) return r.fail("ov_halfrate(1) refused [%s]", desc.c_str()); } return true; }
   bool twins_equal(const char *when) {
     if (ov_pcm_tell(&A.vf) != ov_pcm_tell(&B.vf)) return r.fail("%s: lapped handle at %lld, plain handle at %lld [hist %s] [%s]", when, (long long)ov_pcm_tell(&A.vf), (long long)ov_pcm_tell(&B.vf), hist.c_str(), desc.c_str());
     return true;
@@ -65,6 +66,7 @@ struct Run {
       if (n >= 0 && done >= n + 64 && round >= 1) break;
     }
     if (!twins_equal(name)) return false;
+    if (n < 0 || done < n) lap_residue = true;
     if (checked_fade) r.label("cross-fade formula checked"); if (!predicted_all) r.label("old audio partly beyond the reference (extrapolated lap)");
     if (checked_fade && predicted_all && l_new >= 0 && l_old >= 0 && l_new != l_old && (c.links[l_new].channels != c.links[l_old].channels || c.links[l_new].bs0 != c.links[l_old].bs0)) { nontriv = true; r.label("lap across links with different channels or short block"); }
     if (checked_fade && predicted_all) nontriv = nontriv || (l_new != l_old);
@@ -117,13 +119,32 @@ struct Run {
       if (getenv("VERIF_VERBOSE")) fprintf(stderr, "before lapped op %d: pos_old=%lld rs=%d l_old=%d pcm_returned=%d pcm_current=%d centerW=%ld lW=%ld W=%ld hist %s [%s]\n", what, (long long)pos_old, rs_old, l_old, A.vf.vd.pcm_returned, A.vf.vd.pcm_current, A.vf.vd.centerW, A.vf.vd.lW, A.vf.vd.W, hist.c_str(), desc.c_str());
       static const char *names[] = {"ov_pcm_seek_lap", "ov_pcm_seek_page_lap", "ov_time_seek_lap", "ov_time_seek_page_lap", "ov_raw_seek_lap"};
       bool outofrange = t.chance(1, 10); int ra, rb; std::string nm = names[what];
-      if (what == 4) { int64_t b = outofrange ? (int64_t)c.bytes.size() + 1 + t.below(100) : (int64_t)t.spread((uint32_t)c.bytes.size() + 1); hist += sfmt("%s(%lld)", nm.c_str(), (long long)b); ra = ov_raw_seek_lap(&A.vf, b); rb = ov_raw_seek(&B.vf, b); }
+      // history independence: in one of four lapped calls BOTH handles make the lapped call.  A's earlier seeks were lapped, B's plain, and every lap
+      // region has been consumed since, so the two handles are in equivalent states: the results must be bit-identical, lap region included.
+      bool both = t.chance(1, 4) && !lap_residue;
+      if (what == 4) { int64_t b = outofrange ? (int64_t)c.bytes.size() + 1 + t.below(100) : (int64_t)t.spread((uint32_t)c.bytes.size() + 1); hist += sfmt("%s(%lld)", nm.c_str(), (long long)b); ra = ov_raw_seek_lap(&A.vf, b); rb = both ? ov_raw_seek_lap(&B.vf, b) : ov_raw_seek(&B.vf, b); }
       else if (what <= 1) { int64_t p = outofrange ? (t.chance(1, 2) ? g.total + 1 + t.below(100) : -1 - (int64_t)t.below(100)) : (int64_t)t.spread((uint32_t)std::min<int64_t>(g.total + 1, 0x7fffffff));
         if (!outofrange && t.chance(1, 3)) { int l = (int)t.below((uint32_t)c.links.size()); p = g.start[l] + (t.chance(1, 2) ? 0 : std::max<int64_t>(0, g.len[l] - (int64_t)t.below(200))); }
-        hist += sfmt("%s(%lld)", nm.c_str(), (long long)p); if (what == 0) { ra = ov_pcm_seek_lap(&A.vf, p); rb = ov_pcm_seek(&B.vf, p); } else { ra = ov_pcm_seek_page_lap(&A.vf, p); rb = ov_pcm_seek_page(&B.vf, p); } }
+        hist += sfmt("%s(%lld)", nm.c_str(), (long long)p); if (what == 0) { ra = ov_pcm_seek_lap(&A.vf, p); rb = both ? ov_pcm_seek_lap(&B.vf, p) : ov_pcm_seek(&B.vf, p); } else { ra = ov_pcm_seek_page_lap(&A.vf, p); rb = both ? ov_pcm_seek_page_lap(&B.vf, p) : ov_pcm_seek_page(&B.vf, p); } }
       else { double s = outofrange ? (t.chance(1, 2) ? duration + 0.5 : -0.25) : duration * (double)t.below(1001) / 1000.0; if (!outofrange && s >= duration) s = duration * 0.999; hist += sfmt("%s(%.6f)", nm.c_str(), s);
-        if (what == 2) { ra = ov_time_seek_lap(&A.vf, s); rb = ov_time_seek(&B.vf, s); } else { ra = ov_time_seek_page_lap(&A.vf, s); rb = ov_time_seek_page(&B.vf, s); } }
+        if (what == 2) { ra = ov_time_seek_lap(&A.vf, s); rb = both ? ov_time_seek_lap(&B.vf, s) : ov_time_seek(&B.vf, s); } else { ra = ov_time_seek_page_lap(&A.vf, s); rb = both ? ov_time_seek_page_lap(&B.vf, s) : ov_time_seek_page(&B.vf, s); } }
       hist += sfmt("=%d/%d@%lld/%lld ", ra, rb, (long long)ov_pcm_tell(&A.vf), (long long)ov_pcm_tell(&B.vf)); r.label("op " + nm); if (outofrange) r.label("out-of-range target");
+      if (both) {
+        hist += "(both lapped) "; r.label("both handles lapped (history independence)");
+        if (ra != rb) return r.fail("%s returns %d on a handle whose earlier seeks were lapped and %d on one whose earlier seeks were plain [hist %s] [%s]", nm.c_str(), ra, rb, hist.c_str(), desc.c_str());
+        if (ra != 0) { if (!reopen()) return false; continue; }
+        if (!twins_equal(nm.c_str())) return false;
+        lap_residue = true;   // cleared below once enough audio has been read
+        int64_t done = 0; int need = 2 * (1 << 12);
+        for (int round = 0; round < 12 && done < need; round++) { float **pa, **pb; int ba = -1, bb = -1; long na = ov_read_float(&A.vf, &pa, 4096, &ba), nb = ov_read_float(&B.vf, &pb, 4096, &bb);
+          if (na != nb || (na > 0 && ba != bb)) return r.fail("after %s on both handles: %ld samples of link %d vs %ld of link %d [hist %s] [%s]", nm.c_str(), na, ba, nb, bb, hist.c_str(), desc.c_str());
+          if (na <= 0) break;
+          for (int q = 0; q < c.links[ba].channels; q++) for (long k = 0; k < na; k++) if (memcmp(&pa[q][k], &pb[q][k], 4) && !(pa[q][k] != pa[q][k] && pb[q][k] != pb[q][k]))
+            return r.fail("the result of %s depends on whether EARLIER seeks on the handle were lapped or plain: sample %lld channel %d is %.9g vs %.9g [hist %s] [%s]", nm.c_str(), (long long)(done + k), q, pa[q][k], pb[q][k], hist.c_str(), desc.c_str());
+          done += na; }
+        if (done >= 2 * n_old + 8192 / 2 || done >= 4096) lap_residue = false;
+        continue;
+      }
       if (rb != 0) { if (ra == 0) return r.fail("%s succeeded where the plain seek fails with %d [hist %s] [%s]", nm.c_str(), rb, hist.c_str(), desc.c_str()); if (!reopen()) return false; continue; }
       int64_t TB = ov_pcm_tell(&B.vf);
       if (ra == OV_EOF) {
